@@ -1,8 +1,11 @@
 #!/bin/sh
-# tools/tryseed.sh <prop> <patch>  : apply patch to scratch worktree /tmp/gw (at /repo HEAD), run the check there, undo
+# tools/tryseed.sh <prop> <patch> [tier] : apply patch to a scratch worktree (default /tmp/gw, at /repo HEAD),
+# run this checkout's check there, undo.  GW=<dir> picks another scratch worktree.
 P=$1; PATCH=$2
-[ -d /tmp/gw ] || git -C /repo worktree add -f --detach /tmp/gw HEAD >/dev/null 2>&1
-cd /tmp/gw && git checkout -q --detach 2>/dev/null; git reset -q --hard $(git -C /repo rev-parse HEAD) && git apply "$PATCH" || { echo "patch does not apply"; exit 3; }
-cd /verif && VERIF_REPO=/tmp/gw ./check $P --tier ${3:-quick}; rc=$?
-cd /tmp/gw && git checkout -q -- . && git clean -fdq
+V=$(cd "$(dirname "$0")/.." && pwd)
+GW=${GW:-/tmp/gw}
+[ -d $GW ] || git -C /repo worktree add -f --detach $GW HEAD >/dev/null 2>&1
+cd $GW && git checkout -q --detach 2>/dev/null; git reset -q --hard $(git -C /repo rev-parse HEAD) && git apply "$PATCH" || { echo "patch does not apply"; exit 3; }
+cd $V && VERIF_REPO=$GW ./check $P --tier ${3:-quick}; rc=$?
+cd $GW && git checkout -q -- . && git clean -fdq
 echo "rc=$rc"
